@@ -689,6 +689,55 @@ def typed_ops(maxlen):
     return ops
 
 
+def numeric_long_ops(rng, count):
+    """float_ / uint / int_ on inputs the enumerations cannot reach: long digit strings, leading zeros, values at and next to
+    the rounding boundaries of binary64 (exact doubles, exact midpoints between neighbours = ties, one decimal digit more)"""
+    import struct
+    from decimal import Decimal, getcontext
+    getcontext().prec = 2000
+    ops = []
+
+    def dec(x):
+        t = format(x, "f")
+        if "." not in t:
+            t += ".0"
+        return t.replace(".", "!")
+
+    for i in range(count):
+        k = i % 6
+        if k == 0:      # random long digits
+            a = "".join(rng.choice("0123456789") for _ in range(rng.range(1, 25)))
+            b = "".join(rng.choice("0123456789") for _ in range(rng.range(1, 25)))
+            t = ("-" if rng.chance(1, 3) else "") + a + "!" + b
+        elif k in (1, 2, 3):   # a random finite double, its upper neighbour, the midpoint (tie) and one digit around it
+            e = rng.range(1023 - 70, 1023 + 70)
+            m = rng.below(1 << 52)
+            bits = (e << 52) | m
+            d = Decimal(struct.unpack("<d", struct.pack("<Q", bits))[0])
+            up = Decimal(struct.unpack("<d", struct.pack("<Q", bits + 1))[0])
+            mid = (d + up) / 2
+            t = dec([d, mid, mid][k - 1])
+            if k == 3:
+                t += rng.choice("0159") + rng.choice("01")      # just above the tie (or still the tie with 00)
+            if k == 2 and rng.chance(1, 2):                   # just below the tie: last digit one less, then 9s
+                u = t.rstrip("0")
+                if u[-1] not in "!0":
+                    t = u[:-1] + str(int(u[-1]) - 1) + "99"
+        elif k == 4:
+            z = "0" * rng.range(0, 12)
+            n = rng.choice([65535, 65536, 65534, 0, 1, 99999, 655350, 4294967295, 4294967296, 18446744073709551616, rng.below(70000)])
+            ops.append(f"run c{rng.choice('ph')} E uint ={z}{n}")
+            continue
+        else:
+            z = "0" * rng.range(0, 12)
+            n = rng.choice([32767, 32768, 32769, 0, 1, 65535, 65536, 2147483648, 9223372036854775808, rng.below(40000)])
+            ops.append(f"run c{rng.choice('ph')} E int ={rng.choice(['', '-'])}{z}{n}")
+            continue
+        ce = rng.choice(["cp", "ch", "wp", "cs"])
+        ops.append(f"run {ce} E float ={t}")
+    return ops
+
+
 def batches(rng, tier):
     thorough = tier == "thorough"
     if not typed_files_current():
@@ -705,6 +754,9 @@ def batches(rng, tier):
     yield Batch("save-restore-interplay", sys_ops(it, 6 if thorough else 5, SYS_SKIPS), exhaustive=True,
                 note=f"{len(it)} nests (alt in rep in opt + sibling, not_ around consuming parsers + sibling, fatal at every "
                      "partial-consumption site) x 5 skippers x all inputs, stream and string entry points alternating")
+    yield Batch("numeric-long", numeric_long_ops(rng.fork("numlong"), 6000 if thorough else 900), exhaustive=False,
+                note="float_<double> on long random digit strings, exact doubles, exact ties between neighbouring doubles and one digit "
+                     "around them (round-to-nearest-even); uint / int_ with leading zeros and far beyond the range")
     small, big = (6, 8) if thorough else (5, 6)
     mult = 16 if thorough else 4
     st = {}
